@@ -68,11 +68,10 @@ deriving Repr, BEq, DecidableEq
 
 /-- rich 9.10.0 as found. -/
 def StyleVariant.old : StyleVariant := ⟨true, true, true, true, true, true, true⟩
-/-- The code as it is in /repo now: every repair that has been applied (F3–F6, F9, F26).  `emptyLink`
-(F30) is still pending — flip the last field (and `EMPTY_LINK` in harness/props/c06.py) when
-pending_fixes/C06-empty-link-is-no-link.diff is applied.  C03 / C19 model the current code with this. -/
-def StyleVariant.fixed : StyleVariant := ⟨false, false, false, false, false, false, true⟩
-/-- All repairs applied, the pending one included. -/
+/-- The code as it is in /repo now: every repair has been applied (F3–F6, F9, F26, F30 = c566893).
+C03 / C19 model the current code with this. -/
+def StyleVariant.fixed : StyleVariant := ⟨false, false, false, false, false, false, false⟩
+/-- All repairs applied (coincides with `fixed` since F30 landed; both names are kept). -/
 def StyleVariant.repaired : StyleVariant := ⟨false, false, false, false, false, false, false⟩
 
 /-! ### Python `str` methods on ASCII text -/
